@@ -38,7 +38,8 @@ from lib.core import Ctx, enc, rat
 from lib import stage
 
 ID = "C09"
-LEAN_TARGETS = ["AiuVerif.Props.C09"]
+NEEDS_GEN = True
+LEAN_TARGETS = ["AiuVerif.Props.C09", "AiuVerif.Props.Order"]
 THEOREMS = [
     "AiuVerif.C09.ids_paired",
     "AiuVerif.C09.f_has_s",
@@ -48,6 +49,7 @@ THEOREMS = [
     "AiuVerif.C09.complete_group_detected",
     "AiuVerif.C09.every_send_paired_partial",
     "AiuVerif.C09.prefix_final_loses_multicast",
+    "AiuVerif.Order.flow_order",   # registration order / guards, re-decided on the generated sites
 ]
 RULE = ("stage-level streams: (i) exhaustive histories up to a length bound over a 14-symbol alphabet of helper "
         "slices (two CollGroups, chain/multicast sync groups, short and covering durations); (ii) random chain-"
